@@ -48,6 +48,17 @@ impl Parsed {
 
         // First add all modules to the tree
         for (i, file) in file_tree.files.iter().enumerate() {
+            // Items are named by joining module names with `.`: a module
+            // called `a.b` would share its symbols with module `b` in `a`.
+            if file.module_name.contains('.') {
+                errors.push(RotoError::Custom(format!(
+                    "Invalid module name `{}` (file `{}`): \
+                    the name of a module cannot contain a `.`\n",
+                    file.module_name, file.name
+                )));
+                continue;
+            }
+
             let ident: Identifier = (&file.module_name).into();
             let ident = spans.add(
                 // the first character of the file (nothing, if it is empty)
